@@ -35,7 +35,7 @@ def fam_traffic(w: World) -> None:
     n_deliveries = 1 + ch.draw(3, 'deliveries')
     infos = [S.gen_document(ch, exotic=True, tok_prefix=f'd{d}_' if d else '', reentrant=True) for d in range(n_deliveries)]
     n = max((len(i['doc']) if isinstance(i['doc'], list) else 1) for i in infos)
-    cfg = S.draw_config(ch, n)
+    cfg = S.draw_config(ch, n, middlewares=True, handlers=True)
     for d in range(n_deliveries):
         S.plan_pauses(w, cfg, n + 1, tok_prefix=f'd{d}_' if d else '')
     w.scenario = {'cfg': cfg, 'texts': [i['text'] for i in infos], 'kinds': [i['kinds'] for i in infos]}
@@ -56,7 +56,7 @@ def fam_corrupted(w: World) -> None:
     ch = w.ch
     info = S.gen_document(ch, exotic=True, allow_junk=False)
     n = len(info['doc']) if isinstance(info['doc'], list) else 1
-    cfg = S.draw_config(ch, n)
+    cfg = S.draw_config(ch, n, middlewares=True, handlers=True)
     S.plan_pauses(w, cfg, n + 1)
     text = info['text']
     kinds = []
@@ -114,7 +114,7 @@ def fam_hostile(w: World) -> None:
     else:
         n = 1 + ch.draw(5, 'hostile.len')
         doc = [hostile_element(ch, f't{k}') for k in range(n)]
-    cfg = S.draw_config(ch, n)
+    cfg = S.draw_config(ch, n, middlewares=True, handlers=True)
     S.plan_pauses(w, cfg, n + 1)
     text = json.dumps(doc)
     w.scenario = {'cfg': cfg, 'text': text}
